@@ -40,6 +40,22 @@ def make_replay(pid, h, r, failed_checks, target_dir, scratch, extract=True):
         "created": time.strftime("%Y-%m-%dT%H:%M:%S"),
     }
     found = False
+    if getattr(h, "l2", False):
+        # a driver-generated instance has no symbolic input: the scenario (every control choice is a
+        # literal in the generated harness) IS the failing input; the harness text is kept for re-running
+        src = ""
+        try:
+            g = open(os.path.join(scratch, "gen.rs")).read()
+            k = g.find("pub(crate) fn %s()" % h.name)
+            if k >= 0:
+                src = g[g.rfind("//@", 0, k):g.find("\n}\n", k) + 3]
+        except OSError:
+            pass
+        rep["counterexample"] = {"scenario": h.bound, "generated_harness": src,
+                                 "rerun": "./check %s --only %s" % (pid, h.name)}
+        with open(path, "w") as f:
+            json.dump(rep, f, indent=1)
+        return path, True
     try:
         if not extract or os.environ.get("VERIF_NO_REPLAY"):
             raise RuntimeError("counterexample extraction skipped (budget)")
